@@ -875,11 +875,10 @@ def CustomObject(type='x-custom-type', properties=None, extension_name=None, is_
                 raise DuplicateRegistrationError(
                     "Extension", extension_name,
                 )
-            cls.with_extension = extension_name
 
         # The object first: if it is refused, the extension must not stay
         # behind in the registry.
-        new_type = _custom_object_builder(cls, type, _properties, '2.1', _DomainObject)
+        new_type = _custom_object_builder(cls, type, _properties, '2.1', _DomainObject, extension_name)
 
         if extension_name:
             @CustomExtension(type=extension_name, properties={})
